@@ -361,6 +361,14 @@ def inv(p):
     """Assumed contract of linalg.inv: X inv(X) = inv(X) X = 1; inv(c X) = inv(X)/c; inv(X)† = inv(X†)."""
     C = ctx()
     C.assumed.add("inv")
+    q = normalise(p)
+    if len(q.t) == 1:
+        ((w, c0),) = q.t.items()
+        # inverse of a product of square factors that are invertible by their contracts (unitary; positive diagonal
+        # eigenvalue roots and their inverses): inv(w1 ... wn) = inv(wn) ... inv(w1)
+        if len(w) > 1 and all(x.rows == x.cols and (x.unitary or (x.diag and (x.kind == "eig" or (x.kind == "inv" and x.data.kind == "eig")))) for x in w):
+            out = tuple((x.dagger() if x.unitary else _inv_atom(x)) for x in reversed(w))
+            return NC({out: A.ONE / c0}, p.cols, p.rows)
     a, c = as_atom(p, "U")
     if a is None:
         return NC({(): A.ONE / c}, p.rows, p.cols)
@@ -402,6 +410,11 @@ def _inv_atom(a):
     if T is not None:
         iT = _inv_atom(T)
         C.rule((ia,), NC({(iT, iT): A.ONE}, a.rows, a.cols))
+    eg = getattr(C, "eig_of", {}).get(a)
+    if eg is not None:
+        Dh, V = eg
+        iDh = _inv_atom(Dh)
+        C.rule((ia,), NC({(V, iDh, iDh, V.dagger()): A.ONE}, a.rows, a.cols))
     return ia
 
 
@@ -440,6 +453,86 @@ def sqrtm(p):
         return NC({(_inv_atom(T),): sc}, p.rows, p.cols)
     T = _sqrt_atom(a)
     return NC({(T,): sc}, p.rows, p.cols)
+
+
+def conj_atom(a):
+    """Element-wise complex conjugate of an atom (conj(X) is unitary / Hermitian / diagonal iff X is; conj(X†) = conj(X)†)."""
+    C = ctx()
+    if not hasattr(C, "conj_of"):
+        C.conj_of = {}
+    if a.real:
+        return a
+    b = C.conj_of.get(a)
+    if b is not None:
+        return b
+    if a.adj is not None and a.adj is not a and a.adj in C.conj_of:
+        b = C.conj_of[a.adj].dagger()
+        C.conj_of[a], C.conj_of[b] = b, a
+        return b
+    if a.kind in ("def", "inv", "sqrt"):
+        raise A.OutsideSubset(f"element-wise conjugate of the derived operand {a.name}")
+    b = Atom(f"conj({a.name})", a.rows, a.cols, herm=a.herm, diag=a.diag, kind=a.kind, data=a.data, unitary=a.unitary)
+    C.conj_of[a], C.conj_of[b] = b, a
+    if a.unitary:
+        _unitary_rules(b)
+    return b
+
+
+def _unitary_rules(v):
+    C = ctx()
+    one = NC({(): A.ONE}, v.rows, v.rows)
+    if v.herm:
+        C.rule((v, v), one)
+        return
+    vd = v.dagger()
+    C.rule((vd, v), NC({(): A.ONE}, v.cols, v.cols))
+    C.rule((v, vd), one)
+
+
+def conj(p):
+    """Element-wise complex conjugate: conj(X Y) = conj(X) conj(Y); coefficients are conjugated."""
+    out = {}
+    for w, c in p.t.items():
+        w2 = tuple(conj_atom(x) for x in w)
+        out[w2] = out.get(w2, A.ZERO) + A.lift(c).conjugate()
+    return NC(out, p.rows, p.cols)
+
+
+def transpose(p):
+    """Plain (unconjugated) transpose: (X Y)^T = Y^T X^T, X^T = conj(X)†; scalars are unchanged."""
+    out = {}
+    for w, c in p.t.items():
+        w2 = tuple(conj_atom(x).dagger() for x in reversed(w))
+        out[w2] = out.get(w2, A.ZERO) + c
+    return NC(out, p.cols, p.rows)
+
+
+def eigh(p):
+    """Assumed contract of an eigen-decomposition of a Hermitian positive definite matrix S: (Dh, V) with V unitary,
+    Dh = diag(sqrt(eigenvalues)) real positive diagonal, S = V Dh Dh V†  (hence S V = V Dh Dh, inv(S) = V inv(Dh) inv(Dh) V†)."""
+    C = ctx()
+    C.assumed.add("eig-hermitian")
+    p = normalise(p)
+    if p.rows != p.cols or not is_zero(p - p.dagger()):
+        raise A.OutsideSubset("eigen-decomposition of a matrix that is not provably Hermitian")
+    a, c = as_atom(p, "S")
+    if a is None:
+        raise A.OutsideSubset("eigen-decomposition of a scalar matrix")
+    if not hasattr(C, "eig_of"):
+        C.eig_of = {}
+    if a not in C.eig_of:
+        V = Atom(f"eigvec({a.name})", a.rows, a.cols, kind="eig", data=a, unitary=True)
+        Dh = Atom(f"eigval^1/2({a.name})", a.rows, a.cols, herm=True, diag=True, real=True, kind="eig", data=a)
+        _unitary_rules(V)
+        C.rule((a,), NC({(V, Dh, Dh, V.dagger()): A.ONE}, a.rows, a.cols))
+        iDh = _inv_atom(Dh)
+        iDh.real = True
+        if a in C.inv_of:
+            C.rule((C.inv_of[a],), NC({(V, iDh, iDh, V.dagger()): A.ONE}, a.rows, a.cols))
+        C.eig_of[a] = (Dh, V)
+        _renormalise_defs()
+    Dh, V = C.eig_of[a]
+    return Dh, V, c
 
 
 def _renormalise_defs():
